@@ -1,18 +1,18 @@
 SPECIFICATION Spec
 CONSTANTS
   Calls = {1, 2}
-  DocIds = {1, 2}
+  DocIds = {2, 4}
   FailKinds = {"error"}
   MaxFetches = 1
   MaxOpen = 2
   Overlap = TRUE
-  Kinds = {"direct"}
-  Ours = {"V1", "V2"}
-  LookErrs = {}
-  MaxRefresh = 0
+  Kinds = {"direct", "reg", "auction", "bid", "check"}
+  Ours = {"V1"}
+  LookErrs = {"error"}
+  MaxRefresh = 1
   AuctionMiss = "fail"
   BidAccount = "lookup"
-  Design = "memo"
+  Design = "resolve"
 INVARIANTS TypeOK UsesInForce SequentialRight CallersAgree MissOnly
 CONSTRAINT FetchBound
 CHECK_DEADLOCK FALSE
